@@ -142,11 +142,20 @@ pub struct Running {
     pub thread: Option<std::thread::JoinHandle<()>>,
 }
 
+/// A port for a listener under test. Ports come from a private range below the kernel's ephemeral range and
+/// are handed out round-robin, so that within a run no two instances ever listen on the same port: a client
+/// that connects to the port of an instance that has already stopped can never reach another instance.
 pub fn free_port() -> u16 {
-    std::net::TcpListener::bind("127.0.0.1:0").unwrap().local_addr().unwrap().port()
+    static NEXT: std::sync::atomic::AtomicU32 = std::sync::atomic::AtomicU32::new(0);
+    loop {
+        let n = NEXT.fetch_add(1, std::sync::atomic::Ordering::Relaxed);
+        let port = 10_000 + ((std::process::id().wrapping_mul(7919).wrapping_add(n)) % 22_000) as u16;
+        if std::net::TcpListener::bind(("127.0.0.1", port)).is_ok() {
+            return port;
+        }
+    }
 }
 
-/// Starts the real `Listener` on its own thread (own multi-thread runtime) and waits until it accepts.
 pub fn start_listener(cfg: &ListenerCfg, script: NetScript, workers: usize) -> Running {
     let port = free_port();
     let stop = CancellationToken::new();
